@@ -78,6 +78,12 @@ D_CONV = [
           "floor shift / wrap / clamp, lost-bits direction, 1296 layout pairs x all values", "MC_Conv", "MC_Conv.cfg", "int"),
     d_tlc("MC_Conv_refute: without the sign test on the cast", "MC_Conv", "MC_Conv_refute.cfg", "int", expect="violated"),
 ]
+def d_mathalg(pid, what):
+    return d_tlc("MC_MathAlg (%s): the transcribed algorithms of transcendental.rs (tla/alg/MathAlg.tla, fidelity to the code measured by "
+                 "./check G06) meet the acceptance rules of C12 / %s / C17 for EVERY operand of I5F5, I5F7, I9F3 (and U4F6 for sqrt)" % (what, pid),
+                 "MC_MathAlg", "MC_MathAlg_%s.cfg" % pid, "big", workers=8)
+D_MATHALG_REFUTE = d_tlc("MC_MathAlg_refute: exp with the original frac_nbits() term count, I9F3", "MC_MathAlg", "MC_MathAlg_refute.cfg", "big",
+                         expect="violated")
 DESIGNS = {
     "C01": [D_SEM] + D_MUL + D_DIV, "C02": [D_SEM] + D_MUL[:2] + D_MUL[6:11], "C03": [D_SEM] + D_CMP + D_FLOAT[:1], "C04": [D_SEM] + D_CONV, "C05": D_FLOAT,
     "C06": [D_SEM, d_tlc("MC_Round: rounding methods as coded (masks, 0/1 integer-bit special cases) = exact roundings, every value, "
@@ -85,6 +91,7 @@ DESIGNS = {
     "C07": [D_SEM] + D_EUCLID, "C09": D_FMT,
     "C08": [d_tlc("MC_Parse: tokeniser as coded = grammar, every string up to length 5 over 10 symbols x 4 radices", "MC_Parse",
                   "MC_Parse_5.cfg", "int")], "C11": D_MUL[2:6], "C18": D_WRAPVM,
+    "C13": [d_mathalg("C13", "sqrt")], "C14": [d_mathalg("C14", "log2, ln")], "C15": [d_mathalg("C15", "exp, powi"), D_MATHALG_REFUTE],
 }
 
 
@@ -419,6 +426,20 @@ def plan_growth(pid, tier, seed):
                          "between fixed types, integers and the four float types judged as the to_num family; StaticCast: Some carries the "
                          "converted value and is given only for layout pairs where no source value can overflow",
                     assumptions=["not one of the 18 listed properties", "the half crate's from_bits / to_bits are trusted"])
+    if pid == "G06":
+        fns = "sqrt,log2,ln,exp,powi"
+        gens = [dict(name="af_math", profile="unchecked", bin="math", dom="big", per_shard=300,
+                     args=["--topic", fns, "--tier", tier, "--seed", str(seed)]),
+                dict(name="af_sweep", profile="unchecked", bin="mathsweep", dom="big", per_shard=300,
+                     args=["--topic", fns, "--tier", tier, "--seed", str(seed)])]
+        return dict(bins=["math", "mathsweep"], profiles=["unchecked"], gens=gens, designs=[D_MATHALG_REFUTE], growth=True, prop="AF",
+                    nontrivial=lambda line: '"x":[0],' not in line,
+                    rule="growth: fidelity of the layer-A transcription tla/alg/MathAlg.tla (sqrt, log2, ln, exp, powi as state-free "
+                         "recursive loops): every recorded call with S = D of the math and mathsweep corpora must be reproduced bit for bit "
+                         "AND tick for tick (loop iterations counted by the hook) unless the transcription says a plain operator "
+                         "overflowed; this is what gives the small-width design model MC_MathAlg (attached to C13 / C14 / C15) its meaning. "
+                         "A mismatch is a finding about the transcription, not about the library.",
+                    assumptions=["not one of the 18 listed properties"])
     if pid == "G05":
         gens = [dict(name="foldpred", profile=pr, bin="harness_opt/opt", dom="big", per_shard=1500,
                      args=["--topic", "fold,pred", "--tier", tier, "--seed", str(seed)]) for pr in ("unchecked", "checked")]
@@ -451,6 +472,7 @@ PLANS = {
     "G03": lambda t, s: plan_growth("G03", t, s),
     "G04": lambda t, s: plan_growth("G04", t, s),
     "G05": lambda t, s: plan_growth("G05", t, s),
+    "G06": lambda t, s: plan_growth("G06", t, s),
     "C12": lambda t, s: plan_math("C12", t, s),
     "C13": lambda t, s: plan_math("C13", t, s),
     "C14": lambda t, s: plan_math("C14", t, s),
@@ -577,7 +599,7 @@ def run_check(pid, tier, seed, replay=None):
     log("[%s] traces generated in %.0fs" % (pid, time.time() - tg))
     tv = time.time()
     stats, rejects = core.validate(pid, [(p, d, s) for p, d, s in traces if os.path.getsize(p) > 0],
-                                   spec=plan.get("spec", "Trace"))
+                                   spec=plan.get("spec", "Trace"), prop=plan.get("prop"))
     log("[%s] %d events validated by TLC in %.0fs (%d shards)" % (pid, stats["events"], time.time() - tv, stats["shards"]))
 
     # ---- classify
